@@ -5,6 +5,7 @@ use crate::{
     zx::{machine::ZXMachine, video::colors::ZXColor},
     Result,
 };
+use rustzx_z80::Z80;
 
 const SNA_HEADER_SIZE: usize = 27;
 const SNA_128K_SECONDARY_HEADER_SIZE: usize = 4;
@@ -37,6 +38,10 @@ where
 
     let mut header = [0u8; SNA_HEADER_SIZE];
     asset.read_exact(&mut header)?;
+
+    // The snapshot describes a CPU at an instruction boundary: drop HALT, pending
+    // prefix and EI/DI shadow state of whatever was running before
+    emulator.cpu = Z80::default();
 
     // i-reg
     emulator.cpu.regs.set_i(header[0]);
